@@ -29,7 +29,7 @@ def run(ctx):
     sf, sc_, sl = charfam.run_sequences(ctx, charfam.collision_sequences(), "c02")
     files, cells, leaves = files + sf, cells + sc_, leaves + sl
     verdicts, decided = charfam.validate(ctx, files)
-    too_few = decided < max(5, cells // 4)
+    too_few = decided < max(5, cells // 10)     # (code that fetches words ahead leaves only the one-read cells decidable: about a quarter)
     ctx.evaluations = leaves
     ctx.nontrivial = decided
     ctx.cover.update(cells=cells, leaves=leaves, cells_with_exact_distribution=decided, universe_size=len(uni))
